@@ -6,6 +6,7 @@ import (
 	"go/types"
 	"os"
 	"sort"
+	"strings"
 
 	"golang.org/x/tools/go/ssa"
 )
@@ -133,8 +134,69 @@ func checkBasisOffered(p *Prog, r *Report) {
 	if nameF == nil || gen == nil {
 		return
 	}
+	// atomNoBasis: the condition, when true, says by itself that there is nothing to offer
+	atomNoBasis := func(v ssa.Value) bool {
+		c, ok := v.(*ssa.Call)
+		if !ok {
+			return false
+		}
+		switch calleeName(c) {
+		case "os.IsNotExist":
+			return true
+		case "errors.Is":
+			if len(c.Common().Args) == 2 {
+				if mi, ok := c.Common().Args[1].(*ssa.MakeInterface); ok {
+					if _, isK := constInt(mi.X); isK && strings.HasSuffix(mi.X.Type().String(), "syscall.Errno") {
+						return true
+					}
+				}
+			}
+		}
+		return false
+	}
+	// predicateNoBasis: a boolean helper (dest.missing(dryRun)) every possibly-true
+	// return of which is a no-basis atom or is dominated by one
+	predicateNoBasis := func(h *ssa.Function) bool {
+		if h == nil || h.Blocks == nil || !isModFunc(h) || h.Signature.Results().Len() != 1 {
+			return false
+		}
+		n := 0
+		for _, b := range h.Blocks {
+			ret, ok := lastInstr(b).(*ssa.Return)
+			if !ok {
+				continue
+			}
+			for _, leaf := range phiLeaves(ret.Results[0]) {
+				if k, isK := leaf.(*ssa.Const); isK {
+					if k.Value != nil && k.Value.String() == "false" {
+						continue
+					}
+					// constant true: some dominating fact must be an atom
+					found := false
+					for _, f := range FactsAtBlock(b) {
+						if f.Val && atomNoBasis(f.Cond) {
+							found = true
+						}
+					}
+					if !found {
+						return false
+					}
+					n++
+					continue
+				}
+				if !atomNoBasis(leaf) {
+					return false
+				}
+				n++
+			}
+		}
+		return n > 0
+	}
 	noBasis := func(in ssa.Instruction) (bool, string) {
 		for _, f := range FactsAt(in) {
+			if call, ok := f.Cond.(*ssa.Call); ok && f.Val && predicateNoBasis(call.Common().StaticCallee()) {
+				return true, "destination missing (predicate " + funcKey(call.Common().StaticCallee()) + ")"
+			}
 			switch x := f.Cond.(type) {
 			case *ssa.Call:
 				if calleeName(x) == "os.IsNotExist" && f.Val {
@@ -142,7 +204,14 @@ func checkBasisOffered(p *Prog, r *Report) {
 				}
 				// errors.Is(lstatErr, E) true: the Lstat of the destination failed, there is nothing to offer
 				if calleeName(x) == "errors.Is" && f.Val && len(x.Common().Args) == 2 {
-					if c, i := extractOf(unwrapLocal(x.Common().Args[0])); c != nil && i == 1 && (calleeName(c) == "(*os.Root).Lstat" || calleeName(c) == "(*os.Root).Stat") {
+					roots := g.paramRoots(x.Common().Args[0], 0) // the error may be handed to a helper
+					all := len(roots) > 0
+					for _, root := range roots {
+						if c, i := extractOf(unwrapLocal(root)); !(c != nil && i == 1 && (calleeName(c) == "(*os.Root).Lstat" || calleeName(c) == "(*os.Root).Stat")) {
+							all = false
+						}
+					}
+					if all {
 						return true, "destination cannot be examined (Lstat failed)"
 					}
 				}
